@@ -416,6 +416,21 @@ SPEC = {
             "otherwise in quick, exhaustive in thorough); S3 random tables of 3-6 entries built from earlier entries, 2-5 "
             "sites in random order (1200 quick / 40000 thorough); S4 one struct under four names (itself, typedef, typedef of "
             "const, typedef of that) at two of 15 site kinds incl. first use in a function nobody calls. "
+            "Wave 11 (declaration forms and options): modes npo (no pipeline mode + source_info + a user define + buffer "
+            "addresses supported only if the program has one) and pname (two pipelines in the file, pipeline_name picks one); "
+            "global kinds sbmulti (two declarators in one declaration), sbns (in a namespace), sbst (static), sbex (extern), "
+            "sblocal (a local variable: not a site), cbmem (buffer inside a struct held by a ConstantBuffer: class site-sbmem), "
+            "sbtwo (ONE struct template instantiated with float and with the type, both instances element types), decoy "
+            "(Buffer / RWBuffer / Texture2D / RWTexture2D / sampler / raw buffers / static, uniform and groupshared variables "
+            "of float3, used through non-templated intrinsics: never looked at); wrappers pd (default argument on a prototype "
+            "that is never defined), pf (prototype before main, body after it: checked after main), ns (function in a "
+            "namespace), lp (inside for / if), tt (template instantiated through another template), two (one function "
+            "template instantiated twice), tm (method of a struct template, instantiated by naming W<S>), mt (method "
+            "template), sl (static local), hb (raw buffer that is a member of a global struct); spelling variants of a "
+            "struct (style != 0): several declarators per member declaration, member types through typedefs and typedefs of "
+            "the const-qualified type (a Modifier layer below the element), attributes, stray semicolons, two base structs, "
+            "array types through typedef chains, dimensions as named constants / constant expressions; stream P6: 8-24 sites "
+            "over 3-6 types, structs of 10-24 members. "
             "non-trivial = some type has at least two members",
     "trusted_base": [
         "Lean 4.33 kernel; axioms propext / Classical.choice / Quot.sound only (audited by #print axioms)",
@@ -456,5 +471,16 @@ SPEC = {
         "Metal has no double; the Metal reference treats double like any other scalar (size = alignment = 8); programs "
         "whose compilation fails after an accepting layout check are not judged (the property's premise is false); the "
         "MetalBytecode target needs the Metal compiler and is not exercised",
+        "covered by the correspondence run and its oracle only (front-end behaviour, not in a theorem): how the type checker "
+        "turns the declaration forms of wave 11 into the registries the Lean module is built from - two declarators = two "
+        "globals, a static global has no const modifier, a local buffer variable is no global, a body after main is checked "
+        "after main, a struct template's methods are instantiated where W<S> is first named, two instances of one struct "
+        "template are two struct types with two type ids (Driver/C19.lean::moduleOf); member declarations with several "
+        "declarators, base lists, typedef chains and constant-expression dimensions give the members the request names; a "
+        "member whose type is a typedef of a const-qualified type carries a Modifier layer that get_type_layout / "
+        "offsets_match look through (the two arms are pinned by the translator; the driver erases the layer)",
+        "compile()'s other options (source_info, defines, pipeline_name, support_buffer_address) do not occur in the pinned "
+        "guard of the validation statement (diagnostic_pinned: the guard is exactly args.validate_layout_consistency); that "
+        "they do not influence the front end's registries is exercised by the modes npo / pname only",
     ],
 }
